@@ -4,7 +4,7 @@ PID = "C06"
 
 
 def run(tier, seed):
-    return exec_common.run_exec(PID, tier, seed, 3, scns=("exec", "migrate"))
+    return exec_common.run_exec(PID, tier, seed, 3, scns=("exec", "migrate", "xjoin"))
 
 
 def replay(path):
